@@ -773,6 +773,10 @@ fn do_op(sys: &mut Sys, prog: &mut Prog, st: &mut Stats, g: &mut Gen, op: Op, cn
         let second = !g.r.chance(1, 3);
         sys.be.lock().unwrap().answers = VecDeque::from(vec![true, false, second]);
     }
+    if fault && !sys.latched && matches!(op, Op::Resize(_)) && g.r.chance(1, 2) {
+        // len() succeeds, set_len() fails
+        sys.be.lock().unwrap().answers = VecDeque::from(vec![true, false]);
+    }
     let out = sys.call(&op);
     sys.be.lock().unwrap().answers.clear();
     let after = sys.state();
